@@ -35,7 +35,7 @@ WellFormedGob(bs) ==
   /\ Len(bs) >= 6 /\ bs[1] = 1
   /\ LET f == Flags(bs) IN
        /\ f.mode <= 5 /\ f.accp <= 2 /\ f.form <= 2
-       /\ Lt(U32(SubSeq(bs, 3, 6)), Pow2(31))                         \* precisions stay below 2^31 in the model
+       /\ Lt(U32(SubSeq(bs, 3, 6)), Pow2(30))                         \* precisions stay below 2^30 in the model
        /\ f.form # 1 => Len(bs) = 6
        /\ f.form = 1 =>
             /\ Len(bs) >= 10 + WS /\ (Len(bs) - 10) % WS = 0
